@@ -600,9 +600,9 @@ func Check(c Case) (v vcase.Verdict) {
 
 // ---------------------------------------------------------------------------
 
-var specificKeys = []string{".name", "/size", "/kind", "/gomaxprocs", "goos", "pkg", "commit", "note", ".file", "cpu/model", "città", "Å"}
+var specificKeys = []string{".name", "/size", "/kind", "/gomaxprocs", "/s", "/siz", "goos", "pkg", "commit", "note", ".file", "cpu/model", "città", "Å"}
 var fileKeyPool = []string{"goos", "pkg", "commit", "note", "cpu", "extra", "cpu/model", "città", "Å", "ключ"}
-var valPool = []string{"linux", "darwin", "1", "2", "abc", "x y", "é", "12", "21", "1", "2", "ab", "c"}
+var valPool = []string{"07", "7", "00", "0", "linux", "darwin", "1", "2", "abc", "x y", "é", "12", "21", "1", "2", "ab", "c"}
 
 func genName(t *rapid.T, arbitrary bool) string {
 	if arbitrary && vcase.OneIn(t, 6, "arbname") {
@@ -610,14 +610,14 @@ func genName(t *rapid.T, arbitrary bool) string {
 	}
 	n := rapid.SampledFrom([]string{"Foo", "Bar", "Baz/pos", "Merge-Sort", "Baz/type=big-endian", "X-1/pos"}).Draw(t, "base")
 	if rapid.Bool().Draw(t, "hs") {
-		n += "/size=" + rapid.SampledFrom([]string{"1", "2", "4k", "", "12", "21", "big-endian", "x=1", "y=1", "=", "a=b=1"}).Draw(t, "size")
+		n += "/size=" + rapid.SampledFrom([]string{"1", "2", "4k", "", "12", "21", "big-endian", "x=1", "y=1", "=", "a=b=1", "07", "7", "01"}).Draw(t, "size")
 	}
 	if rapid.Bool().Draw(t, "hk") {
 		n += "/kind=" + rapid.SampledFrom([]string{"a", "b", "1", "2", "12"}).Draw(t, "kind")
 	}
 	if vcase.OneIn(t, 3, "lookalike") {
 		// parts whose key merely starts with a projected key, and positional parts that look like one
-		n += rapid.SampledFrom([]string{"/sizeclass=8", "/sizes", "/kinds=x", "/size", "/gomaxprocs2=1", "/kindred", "/sizeclass=9"}).Draw(t, "look")
+		n += rapid.SampledFrom([]string{"/sizeclass=8", "/sizes", "/kinds=x", "/size", "/gomaxprocs2=1", "/kindred", "/sizeclass=9", "/s=1", "/s=2", "/siz=a", "/s=07"}).Draw(t, "look")
 	}
 	switch rapid.IntRange(0, 3).Draw(t, "gmp") {
 	case 0:
